@@ -508,7 +508,7 @@ def route_ok(r, static_files):
     return r["rule"] in PUBLIC or ((not static_files) if r["static"] else r["prot"])
 
 
-def gen_lean(table, static_files, triples=()):
+def gen_lean(table, static_files, triples=(), calls=None):
     rows = ",\n    ".join(
         "{ rule := %s, methods := [%s], prot := %s, autoOptions := %s, static := %s }" % (
             lean_str(r["rule"]), ", ".join(lean_str(m) for m in r["methods"]),
@@ -576,11 +576,183 @@ def gen_lean(table, static_files, triples=()):
             body += (f"theorem violated_compare : ¬ C15_fullC cfg :=\n  C15_witness_compare cfg {tgt[0]} {lean_str(tgt[1])} {lean_chars(p0)} {lean_chars(e0)} (by decide +kernel)\n"
                      "#print axioms violated_compare\n")
             verdict["compare_witness"] = {"presented": p0, "expected": e0, "rule": table[tgt[0]]["rule"], "method": tgt[1]}
+    if calls is not None:
+        cbody, cverdict = gen_calls(calls)
+        body += cbody
+        verdict.update(cverdict)
+        if not cverdict["calls_ok"]:
+            verdict["full"] = False
     text = ("import Bptk.Props.C15\n/-! GENERATED by harness/props/c15.py from the live Flask app of /repo on every run — do not edit. -/\n"
             "namespace Bptk.C15.Gen\n"
             "def table : Table :=\n  { routes := [\n    " + rows + " ],\n    staticFiles := [" + ", ".join(lean_str(f) for f in static_files) + "] }\n"
             + body + "end Bptk.C15.Gen\n")
     return text, verdict
+
+
+# ------------------------------------------------------------------ call order inside one request (wave 5)
+TRACE_TOOL = 5
+TRACE_MAX = 10
+
+
+class CallTrace:
+    """sys.monitoring PY_START, process-wide, filtered by source file: entries of the `token_required` wrapper are
+    recorded as "check", entries of every other function defined in bptkServer.py, in the external-state adapter
+    package and in bptk.py (view bodies, helpers such as _ensure_instance_exists, InstanceManager methods,
+    before_request hooks, bptk methods) as ("touch", qualified name)."""
+    def __init__(self):
+        import BPTK_Py.server.bptkServer as S
+        import BPTK_Py.externalstateadapter as A
+        import BPTK_Py.bptk
+        B = sys.modules["BPTK_Py.bptk"]
+        self.files = {S.__file__: "server", B.__file__: "bptk"}
+        self.adir = os.path.dirname(A.__file__)
+        self.check_codes = set()
+        tr = S.BptkServer.__dict__.get("token_required")
+        tr = getattr(tr, "__func__", tr)
+        if tr is not None and hasattr(tr, "__code__"):
+            todo = [tr.__code__]
+            while todo:
+                c = todo.pop()
+                for k in c.co_consts:
+                    if isinstance(k, types.CodeType):
+                        self.check_codes.add(k); todo.append(k)
+        self.skip = {tr.__code__} if tr is not None and hasattr(tr, "__code__") else set()
+        # the functions behind the wrapper: entering one of them means the check of this request has passed
+        self.wrapped_codes = set()
+        for v in vars(S.BptkServer).values():
+            f = getattr(v, "__func__", v)
+            if getattr(f, "__code__", None) in self.check_codes and getattr(f, "__wrapped__", None) is not None:
+                self.wrapped_codes.add(getattr(f.__wrapped__, "__code__", None))
+        self.state_prefixes = ("InstanceManager.", "ExternalStateAdapter.", "FileAdapter.", "bptk.")
+        self.on = False
+        self.in_check = 0
+        self.events = []
+        mon = sys.monitoring
+        try:
+            mon.use_tool_id(TRACE_TOOL, "verif-c15-calls")
+        except ValueError:
+            mon.free_tool_id(TRACE_TOOL)
+            mon.use_tool_id(TRACE_TOOL, "verif-c15-calls")
+        mon.register_callback(TRACE_TOOL, mon.events.PY_START, self._cb)
+        mon.register_callback(TRACE_TOOL, mon.events.PY_RETURN, self._ret)
+        mon.register_callback(TRACE_TOOL, mon.events.PY_UNWIND, self._ret)
+        mon.set_events(TRACE_TOOL, mon.events.PY_START | mon.events.PY_UNWIND)
+        for c in self.check_codes:
+            mon.set_local_events(TRACE_TOOL, c, mon.events.PY_RETURN)
+
+    def _ret(self, code, offset, value):
+        if code in self.check_codes and self.in_check > 0:
+            self.in_check -= 1       # the wrapper returned (refusal, or the wrapped function's answer) or raised
+
+    def _cb(self, code, offset):
+        fn = code.co_filename
+        if fn not in self.files and not fn.startswith(self.adir):
+            return sys.monitoring.DISABLE
+        if not self.on or code in self.skip:
+            return None
+        if code in self.check_codes:
+            self.in_check += 1
+            self.helper = True
+            if len(self.events) < TRACE_MAX:
+                self.events.append("check")
+            return None
+        q = getattr(code, "co_qualname", code.co_name)
+        if code in self.wrapped_codes:
+            self.helper = False
+        elif self.in_check > 0 and getattr(self, "helper", False) and not q.startswith(self.state_prefixes):
+            return None                  # a helper of the comparison itself (runs inside the wrapper, before the wrapped function)
+        if "<" in q.split(".")[-1]:      # lambdas / comprehensions inside a traced function
+            return None
+        if len(self.events) < TRACE_MAX:
+            self.events.append(q)
+        return None
+
+    def start(self):
+        self.events, self.on, self.in_check, self.helper = [], True, 0, False
+
+    def stop(self):
+        self.on = False
+        return list(self.events)
+
+    def close(self):
+        mon = sys.monitoring
+        mon.set_events(TRACE_TOOL, 0)
+        for c in self.check_codes:
+            try:
+                mon.set_local_events(TRACE_TOOL, c, 0)
+            except Exception:
+                pass
+        for ev in (mon.events.PY_START, mon.events.PY_RETURN, mon.events.PY_UNWIND):
+            mon.register_callback(TRACE_TOOL, ev, None)
+        mon.free_tool_id(TRACE_TOOL)
+
+
+def probe_calls(table):
+    """per rule x allowed method x instance id: the call trace with the right token, without header, with a
+    wrong token (a fresh server state for each request that changed something)"""
+    rows = []
+    tr = CallTrace()
+    w = World("live-session")
+    try:
+        for i, r in enumerate(table):
+            if r["static"]:
+                continue
+            idns = w.id_names() if "<" in r["rule"] else ["UNKNOWN"]
+            for m in r["methods"]:
+                if m in ("HEAD",):
+                    continue
+                for idn in idns:
+                    got = {}
+                    for name, hdr in (("accepted", "Bearer " + TOKEN), ("absent", None), ("wrong", "Bearer not-the-token")):
+                        tr.start()
+                        try:
+                            status, reached, changes = w.request(r["rule"], m, idn, hdr, UNION_BODY if m in ("POST", "PUT") else None)
+                        finally:
+                            got[name] = tr.stop()
+                        got[name + "_status"] = status
+                        got[name + "_changes"] = changes
+                        if changes:
+                            w.close(); w = World("live-session")
+                    rows.append({"rule": r["rule"], "method": m, "inst": idn, **got})
+    finally:
+        w.close()
+        tr.close()
+    return rows
+
+
+def lean_trace(evs):
+    return "[" + ", ".join(".check" if e == "check" else ".touch " + lean_str(e) for e in evs) + "]"
+
+
+def refused_trace(evs):
+    out = []
+    for e in evs:
+        out.append(e)
+        if e == "check":
+            break
+    return out
+
+
+def gen_calls(rows):
+    bad = next((i for i, r in enumerate(rows) if r["rule"] not in PUBLIC and r["accepted"] and r["accepted"][0] != "check"), None)
+    ok = all(r["rule"] in PUBLIC or ((not r["accepted"] or r["accepted"][0] == "check") and all(e == "check" for e in r["absent"] + r["wrong"])) for r in rows)
+    cons = all(r["absent"] == refused_trace(r["accepted"]) and r["wrong"] == refused_trace(r["accepted"]) for r in rows)
+    body = "def callTable : List CallRow := [\n    " + ",\n    ".join(
+        "{ rule := %s, method := %s, inst := %s, accepted := %s, refusedAbsent := %s, refusedWrong := %s }" % (
+            lean_str(r["rule"]), lean_str(r["method"]), lean_str(r["inst"]), lean_trace(r["accepted"]), lean_trace(r["absent"]), lean_trace(r["wrong"]))
+        for r in rows) + " ]\n"
+    if ok:
+        body += ("theorem call_order_ok : callsOK callTable = true := by decide +kernel\n"
+                 "theorem calls_refuse : CallsRefuse callTable := C15_calls_refuse callTable call_order_ok\n"
+                 "#print axioms call_order_ok\n#print axioms calls_refuse\n")
+    else:
+        body += "theorem call_order_broken : callsOK callTable = false := by decide +kernel\n#print axioms call_order_broken\n"
+        if bad is not None:
+            body += (f"theorem violated_call_order : ¬ CallsRefuse callTable := C15_witness_call_order callTable {bad} (by decide +kernel)\n"
+                     "#print axioms violated_call_order\n")
+    if cons:
+        body += "theorem traces_consistent : callTable.all rowConsistent = true := by decide +kernel\n#print axioms traces_consistent\n"
+    return body, {"calls_ok": ok, "bad_row": bad, "traces_consistent": cons}
 
 
 # ------------------------------------------------------------------ correspondence + reference check
@@ -735,7 +907,23 @@ def run(chk):
         with contextlib.redirect_stdout(sink):
             table, static_files = probe_table()
             triples = probe_compare()
-        gen_text, verdict = gen_lean(table, static_files, triples)
+            calls = probe_calls(table)
+        gen_text, verdict = gen_lean(table, static_files, triples, calls)
+        chk.notes["call_order_probe"] = {"rows": len(calls), "programs": sorted({(r["rule"], r["method"], " > ".join(r["accepted"][:4])) for r in calls})[:80]}
+        for r in calls:      # reference: a refused request must not enter any state-touching function
+            if r["rule"] in PUBLIC:
+                continue
+            for name, hdr in (("absent", None), ("wrong", "Bearer not-the-token")):
+                touched = [e for e in r[name] if e != "check"]
+                if touched and "state-call-before-token-check" not in findings:
+                    findings["state-call-before-token-check"] = (
+                        f"{r['method']} {r['rule']} (instance {r['inst']}) with Authorization {'absent' if hdr is None else repr(hdr)} -> HTTP {r[name + '_status']}: "
+                        f"entered {touched[:4]} {'before' if r[name][0] != 'check' else 'after'} the token check; state changes: {r[name + '_changes'] or 'none'}",
+                        {"probe": "calls", "state": "live-session", "rule": r["rule"], "method": r["method"], "instance": r["inst"], "header": hdr,
+                         "body": r["method"] in ("POST", "PUT"), "trace": r[name], "status": r[name + "_status"], "changes": r[name + "_changes"], "token": TOKEN})
+            if not r["absent"] == r["wrong"] == refused_trace(r["accepted"]) and "call-trace-mismatch" not in findings and not [e for e in r["absent"] + r["wrong"] if e != "check"]:
+                findings["call-trace-mismatch"] = (f"{r['method']} {r['rule']} ({r['inst']}): refused traces {r['absent']} / {r['wrong']} are not the prefix up to the first check of the accepted trace {r['accepted']}",
+                                                   {"correspondence": "call order", "row": {k: r[k] for k in ("rule", "method", "inst", "accepted", "absent", "wrong")}})
         chk.notes["compare_probe"] = {"triples": len(triples), "expected_tokens": EXPECTED_TOKENS,
                                       "accepted": sum(1 for t in triples if t[2]),
                                       "disagreeing_with_equality": [[p, e, v] for p, e, v, _ in triples if bool(v) != (p == e)][:20]}
@@ -748,6 +936,7 @@ def run(chk):
             "Flask/werkzeug: URL matching, method check (405), automatic OPTIONS, header parsing — modelled by `handle` from the probed table, validated only by the correspondence run",
             "the probe of this module: route table read from app.url_map; a view counts as protected iff a request without Authorization header (sentinel token configured) never enters the view's inner function (sys.monitoring on the code objects behind functools.wraps / closure cells)",
             "views are an arbitrary parameter V of the model: nothing about what a view does once reached is assumed",
+            "the call-order probe (wave 5): sys.monitoring PY_START filtered to bptkServer.py, the external-state adapter package and bptk.py; `check` = entry of the token_required wrapper, `touch` = entry of any other function there; helpers the wrapper itself calls before the wrapped function count as part of the check unless they belong to InstanceManager / adapters / bptk; callsOK decided by the kernel on the generated table",
             "the comparison probe: (presented, expected, accepted?) triples from servers configured with 7 tokens (every proper prefix incl. the empty word, extensions, one-character words, same-length variants); the model's comparison is string equality patched by these observations, `compareIsEquality obs` is decided by the kernel",
             "werkzeug's two gateways (test client: repeated lines joined by ', '; WSGI server over a socket: joined by ',', leading blanks/tabs dropped, obs-fold = concatenation) are modelled by `headerValue` and validated by the correspondence only",
         ]
@@ -911,6 +1100,24 @@ def replay(path):
         print(f"token {r['expected']!r} configured, GET /scenarios with Authorization {'Bearer ' + r['presented']!r}: HTTP {st} -> "
               + ("served without the token" if bad else "refused correctly"))
         return 1 if bad else 0
+    if r.get("probe") == "calls":
+        sink = io.StringIO()
+        try:
+            with contextlib.redirect_stdout(sink):
+                tr = CallTrace()
+                w = World(r["state"], token=r.get("token", TOKEN))
+                try:
+                    tr.start()
+                    status, reached, changes = w.request(r["rule"], r["method"], r["instance"], r["header"], UNION_BODY if r.get("body") else None)
+                    trace = tr.stop()
+                finally:
+                    w.close(); tr.close()
+        finally:
+            destroy_all()
+        touched = [e for e in trace if e != "check"]
+        print(f"{r['method']} {r['rule']} instance={r['instance']} Authorization={r['header']!r}: HTTP {status}, call trace {trace}, state changes {changes or 'none'} -> "
+              + ("state-touching call without the token" if touched else "nothing entered but the token check"))
+        return 1 if touched else 0
     if "rule" not in r:
         print("replay file names a theorem / correspondence, no concrete request:", json.dumps(r)[:600])
         return 1
